@@ -15,7 +15,7 @@ RULE = ('a case is (batch, sequence of 2-6 renderings with repeats) applied to t
 ASSUMPTIONS = ['fingerprint covers Tree/Token/Category objects reachable from the result lists']
 REQUIRED_MONITORS = {'fingerprint:compared': 500, 'output:compared-with-fresh-copy': 500}
 FORMATS = {
-    'en': ('auto', 'auto_extended', 'xml', 'jigg_xml', 'conll', 'json', 'ptb', 'deriv', 'html', 'prolog'),
+    'en': ('auto', 'auto_extended', 'xml', 'jigg_xml', 'conll', 'json', 'ptb', 'deriv', 'html', 'prolog', 'ja'),
     'ja': ('auto', 'deriv', 'ja', 'conll', 'html', 'jigg_xml', 'ptb', 'json', 'prolog'),
 }
 
@@ -28,6 +28,8 @@ def shards(tier, seed):
 
 def fingerprint(batch):
     out = []
+    from depccg.lang import get_global_language
+    out.append(('global-language', get_global_language()))          # printing must not change the session either
     out.append(('batch', id(batch), [id(x) for x in batch]))
     for trees in batch:
         out.append(('sentence', id(trees), [(id(st), id(st.tree), st.score) for st in trees]))
@@ -86,6 +88,18 @@ def run(spec, R):
     rng = shard_rng(ID, spec['seed'], spec['name'])
     for i in range(spec['cases']):
         batch = treegen.make_batch(rng, lang, 'all', max_sentences=3, max_nbest=3, attr_domain='all')
+        if rng.random() < 0.3:
+            # tokens as other producers make them: only a word (the failure placeholder, read_ptb), or with additional keys
+            from depccg.types import Token
+            for trees in batch:
+                mode = rng.random()
+                for tok in trees[0].tree.tokens:
+                    if mode < 0.5:
+                        w = tok['word']
+                        tok.clear()
+                        tok['word'] = w
+                    elif rng.random() < 0.3:
+                        tok[rng.choice(('start', 'span', 'extra'))] = rng.choice(('7', 'x'))
         pristine = copy.deepcopy(batch)
         seq = [rng.choice(names) for _ in range(rng.randint(2, 6))]
         if rng.random() < 0.5:
@@ -97,11 +111,16 @@ def run(spec, R):
         # reference outputs are taken up-front, then a larger unrelated batch is rendered in the same formats:
         # state kept by a printer between calls must not leak into later renderings of these results
         reference = {}
-        for name in set(seq):
+        from depccg.lang import get_global_language, set_global_language_to
+        for name in sorted(set(seq)):
             try:
                 reference[name] = rend[name](copy.deepcopy(pristine))
             except Exception:
                 reference[name] = None
+            if get_global_language() != lang:
+                R.violation('print:mutates-objects', f'{name} changed the session language from {lang!r} to {get_global_language()!r}',
+                            dict(wit, step='reference'))
+                set_global_language_to(lang)
         other = treegen.make_batch(rng, lang, 'all', max_sentences=5, max_nbest=3, attr_domain='all')
         while len(other) <= len(batch):
             other = other + treegen.make_batch(rng, lang, 'all', max_sentences=2, max_nbest=2, attr_domain='all')
